@@ -3860,3 +3860,45 @@ def pan16(ctx):
     if n < 1:
         raise AnchorMissing("PAN-16: the cursor of insertion_between is never re-seeded inside the loop")
     return r
+
+
+# ---------------------------------------------------------------- SYN-6: the word reader never looks behind its cursor
+
+def syn6(ctx, unit=None, prefix="asca::word::Word::", floor=12):
+    """The word reader turns text into segments left to right. What lies behind the cursor has already become segments;
+    how it was *spelled* (a length mark or a doubled letter, `:` or `ː`, an input alias or the IPA letter) must not
+    matter any more. No index into the text in Word::fill_segments / Word::setup subtracts from the cursor."""
+    r = RuleResult("SYN-6", "Word::fill_segments / Word::setup: no read of the input text at an index behind the cursor (`txt[j - 1]`, `.get(i - k)`): the spelling of what was already read is not consulted again", floor=floor)
+    lib = unit or ctx.lib
+    n = 0
+
+    def looks_back(ix):
+        for y in hirq.walk(ix):
+            if y["e"] == "binary" and y["op"] == "Sub":
+                return True
+            if y["e"] == "mcall" and y["name"] in ("saturating_sub", "checked_sub", "wrapping_sub"):
+                return True
+        return False
+    for b in lib.bodies:
+        if b.in_test_mod() or not b.hir or b.kind == "closure" or not b.path.startswith(prefix):
+            continue
+        k = 0
+        for x in hirq.walk(b.hir["body"]):
+            ix = None
+            if x["e"] == "index" and "char" in (x.get("of_ty") or ""):
+                ix = x["i"]
+            elif x["e"] == "mcall" and x["name"] in ("get", "get_unchecked", "nth") and "char" in (x.get("rty") or "") and x["args"]:
+                ix = x["args"][0]
+            if ix is None:
+                continue
+            n += 1
+            bad = looks_back(ix)
+            short = b.path.rsplit("::", 1)[-1]
+            r.inst("%s: text read #%d is at or ahead of the cursor" % (short, k), fn_loc(b, x.get("ln")), "report" if bad else "ok")
+            if bad:
+                r.report("SYN-6|%s|#%d" % (short, k), fn_loc(b, x.get("ln")), b.path,
+                         "the word reader reads the text *behind* its cursor: what stands there was already turned into segments, so the result now depends on how it was spelled -- `tːʰ` (length mark) and `ttʰ` (doubled letter), documented as the same word, parse differently")
+            k += 1
+    if n < floor:
+        raise AnchorMissing("SYN-6: %d reads of the input text found in Word::fill_segments / setup (expected >= %d)" % (n, floor))
+    return r
